@@ -13,7 +13,7 @@ from common import coq_eval, natl, natll, parse_ints, try_coq
 from gens import atoms_of, base_cells, make_supercell, random_dataset
 from tensors import apply_op, full_basis_tensors, same_span
 
-UNITS = ["IndepGen", "ShapesSpg", "ShapesCoset", "ShapesO1"]
+UNITS = ["IndepGen", "ShapesSpg", "ShapesCoset", "ShapesO1", "ShapesBasis"]
 PROPS = ["props/C02.v"]
 EXTRA = ["theories/CosetModel.vo"]
 ASSUMPTIONS = ["orthogonality and the group law of the float matrices L r L^-1, the 1e-10 entry drop and spglib's output are assumptions checked numerically",
@@ -77,6 +77,14 @@ def check(ctx):
         rm = sorted(range(nops), key=lambda i_: (first[keys[i_]], i_))
         if (rots[rm[0]] == np.eye(3, dtype=int)).all() and np.abs(trans[rm[0]]).max() < 1e-9:
             variants.append(("explicit-rotation-major", {"rotations": rots[rm], "translations": trans[rm]}))
+        # a listing by generators of the same group: every pure translation, then ONE operation per remaining rotation part
+        # (the library's own decomposition: translations x one operation per distinct rotation); invariance is demanded under
+        # every operation of the generated group, i.e. under all spglib operations
+        pure_ = [i_ for i_ in range(nops) if (rots[i_] == np.eye(3, dtype=int)).all()]
+        reps_ = [first[k_] for k_ in first if not (np.array(k_).reshape(3, 3) == np.eye(3, dtype=int)).all()]
+        cosetlist = sorted(pure_, key=lambda i_: (np.abs(trans[i_]).max() > 1e-9, i_)) + reps_
+        if len(pure_) > 1 and reps_ and (rots[cosetlist[0]] == np.eye(3, dtype=int)).all() and np.abs(trans[cosetlist[0]]).max() < 1e-9:
+            variants.append(("explicit-translations-plus-representatives", {"rotations": rots[cosetlist], "translations": trans[cosetlist]}))
         proper = [i for i in range(nops) if round(np.linalg.det(rots[i])) == 1]
         if 0 < len(proper) < nops:
             variants.append(("proper-subgroup", {"rotations": rots[proper], "translations": trans[proper]}))
@@ -87,6 +95,8 @@ def check(ctx):
                 g_idx = order_
             elif vname == "explicit-rotation-major":
                 g_idx = rm
+            elif vname == "explicit-translations-plus-representatives":
+                g_idx = list(range(nops))
             else:
                 g_idx = proper
             for order in (2, 3, 4):
@@ -120,7 +130,7 @@ def check(ctx):
                     ctx.fail("oracle", f"C02/oracle/basis/order{order}", f"{sc['name']} ops={vname} order {order}: an expanded basis vector is not invariant under operation {arg} (r={rots[arg].tolist()}, t={trans[arg].round(6).tolist()}): relative change {worst:.2e}",
                              replay={"cell": sc["name"], "lattice": sc["lattice"].tolist(), "positions": sc["positions"].tolist(), "numbers": [int(x) for x in sc["numbers"]], "ops": vname, "order": order, "operation": int(arg)}, has_input=True)
                 # the span of a subgroup's basis must contain the full group's basis (and equal it for the full group given in another order)
-                if vname in ("explicit-shuffled", "explicit-rotation-major"):
+                if vname in ("explicit-shuffled", "explicit-rotation-major", "explicit-translations-plus-representatives"):
                     o2 = Symfc(at)
                     o2.compute_basis_set(orders=[order])
                     F1 = np.asarray(b.compression_matrix @ b.basis_set)
